@@ -5,7 +5,7 @@ cd /verif
 FILES="parsed_array.go parsed_object.go parsed_json.go parsed_serialize.go simdjson_amd64.go parse_json_amd64.go stage1_find_marks_amd64.go stage2_build_tape_amd64.go parse_number.go parse_string_amd64.go find_subroutines_amd64.go options.go appendfloat_f.go"
 set -o pipefail
 rc=0
-for k in swap-eq flip-rel flip-else incdec assign-op var-decl reorder errmsg nop-stmt add-else unelse; do
+for k in swap-eq flip-rel flip-else incdec assign-op var-decl reorder errmsg nop-stmt add-else unelse nest-and merge-and; do
   bin/simdvet neutral $k $FILES | tail -1 || rc=1
 done
 exit $rc
